@@ -120,6 +120,9 @@ enum class Src : std::uint8_t {
   RunAsync,
   CoroFuture,
   CoroFutureOn,
+  AsyncContractNow,
+  AsyncContractInline,
+  AsyncContractLater,
   kEagerCount,
   // lazy
   TaskValue = 16,
@@ -131,6 +134,7 @@ enum class Src : std::uint8_t {
   LazyContractNow,
   LazyContractLater,
   CoroTask,
+  LazyContractOn,
   kLazyEnd
 };
 const char* SrcName(Src s) {
@@ -149,6 +153,10 @@ const char* SrcName(Src s) {
     case Src::CoroFuture: return "coroutine returning Future<T>";
     case Src::CoroFutureOn: return "coroutine returning Future<T> after co_await On(e)";
     case Src::CoroTask: return "lazy coroutine returning Task<T>";
+    case Src::AsyncContractNow: return "AsyncContract(e, f sets promise)";
+    case Src::AsyncContractInline: return "AsyncContract(f sets promise)";
+    case Src::AsyncContractLater: return "AsyncContract(e, f hands promise to another fiber)";
+    case Src::LazyContractOn: return "LazyContract(e, f sets promise)";
     case Src::TaskValue: return "MakeTask(value)";
     case Src::TaskError: return "MakeTask(error)";
     case Src::TaskVoid: return "MakeTask<void>()";
@@ -160,8 +168,14 @@ const char* SrcName(Src s) {
     default: return "?";
   }
 }
-enum class SrcOut : std::uint8_t { Value, Error, Exception, Dropped };
-const char* kSrcOutNames[] = {"value", "error", "exception", "dropped/throws"};
+// SetThrowsRef / SetThrowsVal (contract functions that fulfil inside f only): f calls Set(v) and constructing the value in the
+// shared state throws. f took the promise by rvalue reference: the library still owns it and stores the exception; f took
+// it by value: the parameter dies unset during unwinding (StopError) and the library must ignore the exception.
+enum class SrcOut : std::uint8_t { Value, Error, Exception, Dropped, SetThrowsRef, SetThrowsVal };
+const char* kSrcOutNames[] = {"value", "error", "exception", "dropped/throws", "Set(v) throws, f(Promise&&)", "Set(v) throws, f(Promise)"};
+constexpr bool SetsInsideF(Src s) {
+  return s == Src::AsyncContractNow || s == Src::AsyncContractInline || s == Src::LazyContractNow || s == Src::LazyContractOn;
+}
 
 enum class Sink : std::uint8_t { Get, WaitTouch, Detach, DetachInline, DetachOn, kCount };
 const char* kSinkNames[] = {"Get", "Wait+Touch", "Detach()", "DetachInline(f)", "Detach(e,f)"};
@@ -314,7 +328,10 @@ class Case final : public sim::CaseBase {
     }
     p.src_exec = LiveExec(g, p05 || p03);
     p.src_id = 1 + g.Noise(90);
-    p.src_out = static_cast<SrcOut>(g.Draw(4));
+    p.src_out = static_cast<SrcOut>(g.Draw(6));
+    if (!SetsInsideF(p.src) && (p.src_out == SrcOut::SetThrowsRef || p.src_out == SrcOut::SetThrowsVal)) {
+      p.src_out = SrcOut::Value;
+    }
     switch (p.src) {
       case Src::ReadyValue: p.src_out = SrcOut::Value; vt = VT::Tr; on = false; break;
       case Src::ReadyError: p.src_out = SrcOut::Error; vt = VT::Tr; on = false; break;
@@ -330,6 +347,9 @@ class Case final : public sim::CaseBase {
       case Src::CoroFuture:
       case Src::CoroFutureOn: vt = VT::Tr; on = false; if (p.src_out == SrcOut::Dropped) p.src_out = SrcOut::Exception; break;
       case Src::CoroTask: vt = VT::Tr; on = true; if (p.src_out == SrcOut::Dropped) p.src_out = SrcOut::Exception; break;
+      case Src::AsyncContractNow:
+      case Src::AsyncContractLater: vt = VT::Tr; on = true; break;
+      case Src::AsyncContractInline: vt = VT::Tr; on = false; break;
       case Src::TaskValue: p.src_out = SrcOut::Value; vt = VT::Tr; on = true; break;
       case Src::TaskError: p.src_out = SrcOut::Error; vt = VT::Tr; on = true; break;
       case Src::TaskVoid: p.src_out = SrcOut::Value; vt = VT::Vo; on = true; break;
@@ -339,7 +359,8 @@ class Case final : public sim::CaseBase {
       default: vt = VT::Tr; on = true; break;  // LazyContract*
     }
     if (p.src == Src::RunInline || p.src == Src::ScheduleInline || p.src == Src::TaskValue || p.src == Src::TaskError || p.src == Src::TaskVoid ||
-        p.src == Src::LazyContractNow || p.src == Src::LazyContractLater || p.src == Src::CoroFuture || p.src == Src::CoroTask) {
+        p.src == Src::LazyContractNow || p.src == Src::LazyContractLater || p.src == Src::CoroFuture || p.src == Src::CoroTask ||
+        p.src == Src::AsyncContractInline) {
       p.src_exec = kExInline;  // these sources carry the library's own inline executor, not a proxy
       src_proxied = false;
     }
@@ -462,7 +483,8 @@ class Case final : public sim::CaseBase {
     static const char* kKey = "inner-task-head-schedule-or-lazycontract";
     if (prog.lazy && StartsThroughHere(prog.start)) {
       const Src s = prog.src;
-      if (s == Src::ScheduleT || s == Src::ScheduleInline || s == Src::ScheduleVoid || s == Src::LazyContractNow || s == Src::LazyContractLater) {
+      if (s == Src::ScheduleT || s == Src::ScheduleInline || s == Src::ScheduleVoid || s == Src::LazyContractNow || s == Src::LazyContractLater ||
+          s == Src::LazyContractOn) {
         return kKey;
       }
     }
@@ -832,6 +854,21 @@ class Case final : public sim::CaseBase {
   }
 
   // ------------------------------------------------------------------------------------------------- sources
+  // fulfilment inside a contract function; Set may throw while it constructs the value in the shared state
+  void SetInsideRef(yaclib::Promise<T, E>&& p) {
+    if (prog.src_out == SrcOut::SetThrowsRef) {
+      SIM_FAULT("value_construction_throws_in_set");
+      std::move(p).Set(sim::Bomb{prog.src_id});
+      sim::Fail("HARNESS", "Set(Bomb) did not throw");
+    }
+    SetPromise(std::move(p));
+  }
+  void SetInsideVal(yaclib::Promise<T, E> p) {
+    SIM_FAULT("value_construction_throws_in_set");
+    std::move(p).Set(sim::Bomb{prog.src_id});
+    sim::Fail("HARNESS", "Set(Bomb) did not throw");
+  }
+
   void SetPromise(yaclib::Promise<T, E> p) {
     switch (prog.src_out) {
       case SrcOut::Value: std::move(p).Set(T{prog.src_id}); break;
@@ -950,9 +987,64 @@ class Case final : public sim::CaseBase {
         });
         break;
       case Src::LazyContractNow:
-        car = yaclib::LazyContract<T, E>([this](yaclib::Promise<T, E> pr) {
+        if (p.src_out == SrcOut::SetThrowsVal) {
+          car = yaclib::LazyContract<T, E>([this](yaclib::Promise<T, E> pr) {
+            LogInvoke(-1, Outcome{});
+            SetInsideVal(std::move(pr));
+          });
+        } else {
+          car = yaclib::LazyContract<T, E>([this](yaclib::Promise<T, E>&& pr) {
+            LogInvoke(-1, Outcome{});
+            SetInsideRef(std::move(pr));
+          });
+        }
+        break;
+      case Src::LazyContractOn:
+        if (p.src_out == SrcOut::SetThrowsVal) {
+          car = yaclib::LazyContract<T, E>(Exec(p.src_exec), [this](yaclib::Promise<T, E> pr) {
+            LogInvoke(-1, Outcome{});
+            SetInsideVal(std::move(pr));
+          });
+        } else {
+          car = yaclib::LazyContract<T, E>(Exec(p.src_exec), [this](yaclib::Promise<T, E>&& pr) {
+            LogInvoke(-1, Outcome{});
+            SetInsideRef(std::move(pr));
+          });
+        }
+        break;
+      case Src::AsyncContractNow:
+        if (p.src_out == SrcOut::SetThrowsVal) {
+          car = yaclib::AsyncContract<T, E>(Exec(p.src_exec), [this](yaclib::Promise<T, E> pr) {
+            LogInvoke(-1, Outcome{});
+            SetInsideVal(std::move(pr));
+          });
+        } else {
+          car = yaclib::AsyncContract<T, E>(Exec(p.src_exec), [this](yaclib::Promise<T, E>&& pr) {
+            LogInvoke(-1, Outcome{});
+            SetInsideRef(std::move(pr));
+          });
+        }
+        break;
+      case Src::AsyncContractInline:
+        if (p.src_out == SrcOut::SetThrowsVal) {
+          car = yaclib::AsyncContract<T, E>([this](yaclib::Promise<T, E> pr) {
+            LogInvoke(-1, Outcome{});
+            SetInsideVal(std::move(pr));
+          });
+        } else {
+          car = yaclib::AsyncContract<T, E>([this](yaclib::Promise<T, E>&& pr) {
+            LogInvoke(-1, Outcome{});
+            SetInsideRef(std::move(pr));
+          });
+        }
+        break;
+      case Src::AsyncContractLater:
+        car = yaclib::AsyncContract<T, E>(Exec(p.src_exec), [this](yaclib::Promise<T, E> pr) {
           LogInvoke(-1, Outcome{});
-          SetPromise(std::move(pr));
+          Later([this, pp = std::move(pr)]() mutable {
+            sim::Yield();
+            SetPromise(std::move(pp));
+          });
         });
         break;
       case Src::LazyContractLater:
@@ -1214,6 +1306,7 @@ class Case final : public sim::CaseBase {
       case SrcOut::Value: return {OKind::Value, p.src_id};
       case SrcOut::Error: return {OKind::Error, p.src_id};
       case SrcOut::Exception: return {OKind::Exception, p.src_id};
+      case SrcOut::SetThrowsRef: return {OKind::Exception, p.src_id};
       default: return {OKind::Stopped, 0};
     }
   }
@@ -1269,7 +1362,8 @@ class Case final : public sim::CaseBase {
     bool cur_proxied = src_proxied;
     Outcome in = SrcOutcome(p);
     const bool run_src = p.src == Src::RunT || p.src == Src::RunVoid || p.src == Src::RunInline || p.src == Src::RunAsync || p.src == Src::CoroTask || p.src == Src::ScheduleT ||
-                         p.src == Src::ScheduleInline || p.src == Src::ScheduleVoid || p.src == Src::LazyContractNow || p.src == Src::LazyContractLater;
+                         p.src == Src::ScheduleInline || p.src == Src::ScheduleVoid || p.src == Src::LazyContractNow || p.src == Src::LazyContractLater ||
+                         p.src == Src::LazyContractOn || p.src == Src::AsyncContractNow || p.src == Src::AsyncContractInline || p.src == Src::AsyncContractLater;
     if (p.src == Src::ReadyVoid || p.src == Src::RunVoid || p.src == Src::TaskVoid || p.src == Src::ScheduleVoid) {
       if (in.kind == OKind::Value) {
         in.id = 0;
@@ -1294,7 +1388,9 @@ class Case final : public sim::CaseBase {
       }
     }
     // source submission
-    const bool src_submits = p.lazy ? true : (p.src == Src::RunT || p.src == Src::RunVoid || p.src == Src::RunInline || p.src == Src::RunAsync);
+    const bool src_submits = p.lazy ? true
+                                    : (p.src == Src::RunT || p.src == Src::RunVoid || p.src == Src::RunInline || p.src == Src::RunAsync ||
+                                       p.src == Src::AsyncContractNow || p.src == Src::AsyncContractInline || p.src == Src::AsyncContractLater);
     if (p.src == Src::CoroFuture || p.src == Src::CoroFutureOn) {
       // an eager coroutine starts running at once (logged before any executor hop); On(e) is one submission to e and a
       // refusal completes the coroutine with StopError
